@@ -166,7 +166,8 @@ def campaign_gate(cx):
                     # the scanned range is (applied | pending snapshot, committed]
                     for l in cx.guard_lits(cc):
                         if no_unapplied(l):
-                            args = l[1][2]
+                            from ..engine import spread_ranges
+                            args = spread_ranges(l[1][2])
                             lo, hi = args[1], args[2]
                             ok_hi = match(("bin", "Add", alt(fld("RaftLog.committed"), ("int", 1)), alt(fld("RaftLog.committed"), ("int", 1))), hi) is not None
                             ok_lo = contains(fld("RaftLog.applied"), lo)
@@ -192,8 +193,18 @@ def campaign_gate(cx):
             scans = [x for x in cx.prog.call_sites_of(cx.sfx("Raft::has_unapplied_conf_changes")) if x.fn is f
                      and g.dominated_by_block((x.block, "term"), lambda b, mc=mc: b == mc.block)]
             for sc in scans:
-                lo = call_args(cx, sc)[1]
+                from ..engine import spread_ranges
+                lo = spread_ranges(call_args(cx, sc))[1]
                 okr = value_read_before(cx, sc, 1, "RaftLog::maybe_commit")
+                # the bounds travel as one `lo..hi` value: it is the lower bound that must be the old commit index
+                op1 = sc.data["term"]["args"][1]
+                pl1 = op1.get("copy") or op1.get("move")
+                if pl1 is not None and not pl1["p"]:
+                    a_ = cx.prog.A(f)
+                    ds_ = a_.defs[pl1["l"]]
+                    if len(ds_) == 1 and ds_[0][2] == "assign" and ds_[0][3].get("agg") == "adt" and str(ds_[0][3].get("adt", "")).endswith("ops::range::Range") and "start" in ds_[0][3].get("fields", []):
+                        from ..engine import operand_read_before
+                        okr = operand_read_before(cx, f, ds_[0][3]["ops"][ds_[0][3]["fields"].index("start")], "RaftLog::maybe_commit", at=(ds_[0][0], ds_[0][1]))
                 cx.check(bool(okr) and contains(fld("RaftLog.committed"), lo), cx.site_key(sc, "scan-from-old-commit"), "the conf-change scan starts after the commit index read before the fast-forward (found lower bound %s)" % show(lo), sc)
             st = [("in", l[1], frozenset(["Candidate", "PreCandidate"]), l[3]) for l in cx.guard_lits(c) if l[0] == "in" and is_f(l[1], STATE)][:1]
             ok, n_edges = g.after_edge_must_pass(lambda lits: any(found(l) for l in lits), lambda b, c=c: b == c.block, assume=st)
@@ -326,7 +337,7 @@ CS = "raft_proto::protos::eraftpb::ConfState"
 CS_FIELDS = ["voters", "learners", "voters_outgoing", "learners_next", "auto_leave"]
 
 
-@obligation("CONF.restore_roundtrip", ["C09", "C12", "C15"], floor=5, kind="pairing + exhaustiveness over ConfState",
+@obligation("CONF.restore_roundtrip", ["C09", "C12", "C15", "C20"], floor=5, kind="pairing + exhaustiveness over ConfState",
             why="a node restarted or restored from a ConfState must end up with exactly that configuration")
 def restore_roundtrip(cx):
     ad = cx.facts.adt(CS)
@@ -486,6 +497,29 @@ def _replay_rest(cx, rf):
     reads = cx.prog.readset_short(strip_generics(eqf.key))
     for f in CS_FIELDS:
         cx.check("ConfState." + f in reads, "conf_state_eq:" + f, "conf_state_eq compares ConfState.%s" % f)
+    # ... and compares the four lists as SETS: a ConfState lists its ids in hash-map order, so the same configuration
+    # comes out in different orders; no `false` may be decided by an ordered comparison of two lists alone
+    LISTS = ("voters", "learners", "voters_outgoing", "learners_next")
+
+    def ordered_cmp(e):
+        return e[0] == "bin" and e[1] in ("Eq", "Ne") and all(x[0] == "field" and x[2] in ["ConfState." + n_ for n_ in LISTS] for x in e[2:4])
+    try:
+        eq_rets = cx.pg(eqf).returns(limit=20000)
+    except OverflowError:
+        eq_rets = None
+    oku = eq_rets is not None and bool(eq_rets)
+    worst = None
+    for lits, v, _ in eq_rets or []:
+        if v == ("bool", True):
+            continue
+        deciding = [l for l in lits if l[0] == "is" and ((l[2] is False and not (l[1][0] == "bin" and l[1][1] == "Ne")) or (l[2] is True and l[1][0] == "bin" and l[1][1] == "Ne"))]
+        if v != ("bool", False):
+            deciding = deciding + [("is", v, False)]    # the path returns the value of its last test
+        # a false answer needs one deciding test that is not an ordered list comparison
+        if deciding and all(ordered_cmp(l[1]) for l in deciding):
+            oku = False
+            worst = worst or [show_lit(l) for l in deciding]
+    cx.check(oku, "conf_state_eq:unordered", "conf_state_eq never answers false on the strength of an ordered comparison of two id lists alone (found %s)" % worst)
     # both restorers verify the round trip
     n = 0
     for c in callers_of(cx, rf):
@@ -668,7 +702,10 @@ def unapplied_scan(cx):
             for lits, v, b in fg.returns():
                 if v == ("bool", False):
                     # the only shortcut: nothing is unapplied
+                    def _app1(x):
+                        return x[0] == "bin" and x[1] == "Add" and ("int", 1) in x[2:4] and any(is_f(y, "RaftLog.applied") for y in x[2:4])
                     okf = any(l[0] == "is" and l[2] is False and l[1][0] == "bin" and l[1][1] == "Lt" and is_f(l[1][2], "RaftLog.applied") and is_f(l[1][3], "RaftLog.committed") for l in lits) or \
+                        any(l[0] == "is" and l[2] is True and l[1][0] == "bin" and l[1][1] == "Lt" and is_f(l[1][2], "RaftLog.committed") and _app1(l[1][3]) for l in lits) or \
                         any(l[0] == "is" and l[2] is True and l[1][0] == "bin" and l[1][1] in ("Lt", "Eq") and is_f(l[1][2], "RaftLog.committed") and is_f(l[1][3], "RaftLog.applied") for l in lits) or \
                         any(l[0] == "is" and l[2] is True and l[1][0] == "bin" and l[1][1] == "Eq" and is_f(l[1][2], "RaftLog.applied") and is_f(l[1][3], "RaftLog.committed") for l in lits)
                     cx.check(okf, name + ":shortcut", "the scan is skipped only when applied >= committed (found %s)" % "; ".join(show_lit(l)[:80] for l in lits)[:200], sc)
